@@ -331,8 +331,11 @@ class Ctx(object):
         ``units`` is a list (sharded over workers); ``expand`` (default:
         identity) yields the fully specified cases of a unit.
         """
+        auto_strict = False
         if getattr(self, "envstrict_all", False) and not name.endswith(("/strict-environment", "/fp-strict", "/warnings-as-errors", "/fp-errors-ignored")):
-            envstrict = True
+            # ("small": only parts of at most 400000 cases in the quick tier - the environment pass doubles a part)
+            auto_strict = True
+            envstrict = envstrict or self.envstrict_all != "small" or not self.quick
         part = Part(name, one, engine)
         self.parts[name] = part
         part.units = units
@@ -384,7 +387,7 @@ class Ctx(object):
             self._fpstrict_pass(name, units, one, expand, nworkers, bounds, engine)
         if wstrict:
             self._wstrict_pass(name, units, one, expand, nworkers, bounds, engine)
-        if envstrict:
+        if envstrict or (auto_strict and rec.evaluations <= 400000):
             self._envstrict_pass(name, units, one, expand, nworkers, bounds, engine)
         if fpignore:
             self._fpignore_pass(name, units, one, expand, nworkers, bounds, engine)
